@@ -441,8 +441,12 @@ public:
 
   reverse_iterator rbegin() { return reverse_iterator(end()); }
   reverse_iterator rend() { return reverse_iterator(begin()); }
-  const_iterator rbegin() const { const_reverse_iterator(this->end()); }
-  const_iterator rend() const { const_reverse_iterator(this->begin()); }
+  const_reverse_iterator rbegin() const {
+    return const_reverse_iterator(this->end());
+  }
+  const_reverse_iterator rend() const {
+    return const_reverse_iterator(this->begin());
+  }
 };
 
 } // namespace galois
